@@ -511,6 +511,83 @@ theorem runLoop_from (g : α → α) (xs : List α) (hn : xs.length < 2 ^ 63) :
     simpa [emitCompLoop] using this
 
 
+/-! ### order in which the targets of an unpacking are bound -/
+
+/-- the non-starred targets are bound strictly left to right, the starred target last -/
+theorem assignOrder_starred (l r : Nat) :
+    assignOrder l r true = (List.range (l + 1 + r)).filter (· ≠ l) ++ [l] := by
+  unfold assignOrder
+  simp only [↓reduceIte, List.append_cancel_right_eq]
+  have h1 : List.range (l + 1 + r) = List.range l ++ [l] ++ (List.range r).map (· + (l + 1)) := by
+    rw [show l + 1 + r = (l + 1) + r by omega, List.range_add, List.range_succ]
+    simp [Nat.add_comm]
+  rw [h1]
+  simp only [List.filter_append, List.filter_map]
+  have hl : (List.range l).filter (fun x => decide (x ≠ l)) = List.range l := by
+    apply List.filter_eq_self.mpr
+    intro a ha; simp at ha; simp; omega
+  have hr : (List.range r).filter ((fun x => decide (x ≠ l)) ∘ fun x => x + (l + 1)) = List.range r := by
+    apply List.filter_eq_self.mpr
+    intro a _; simp; omega
+  rw [hl, hr]
+  simp [Nat.add_assoc]
+
+theorem assignOrder_plain (l : Nat) : assignOrder l 0 false = List.range l := by
+  simp [assignOrder]
+
+/-- one binding step -/
+def bind1 (names wires : List Nat) (env : List (Nat × Nat)) (t : Nat) : List (Nat × Nat) :=
+  match names[t]?, wires[t]? with
+  | some x, some w => (x, w) :: env.filter (·.1 ≠ x)
+  | _, _ => env
+
+theorem bindTargets_eq (names wires order : List Nat) :
+    bindTargets names wires order = order.foldl (bind1 names wires) [] := rfl
+
+theorem lookup_bind1 (names wires : List Nat) (env : List (Nat × Nat)) (t x : Nat) (hn : t < names.length)
+    (hw : t < wires.length) :
+    lookupName (bind1 names wires env t) x = if names[t] = x then some wires[t] else lookupName env x := by
+  unfold bind1
+  simp only [List.getElem?_eq_getElem hn, List.getElem?_eq_getElem hw]
+  by_cases h : names[t] = x
+  · simp [lookupName, h]
+  · simp only [h, ↓reduceIte, lookupName]
+    rw [List.find?_cons_of_neg (by simpa using h), List.find?_filter]
+    congr 2
+    funext a
+    by_cases ha : a.1 = x
+    · simp [ha, Ne.symm h]
+    · simp [ha]
+
+/-- after binding the targets of `order ++ [t]` one after the other, the name of `t` is bound to
+    `t`'s wire, and every other name keeps the binding it had after `order` -/
+theorem lookup_after_last (names wires order : List Nat) (t x : Nat) (hn : t < names.length)
+    (hw : t < wires.length) :
+    lookupName (bindTargets names wires (order ++ [t])) x =
+      if names[t] = x then some wires[t] else lookupName (bindTargets names wires order) x := by
+  rw [bindTargets_eq, List.foldl_append]
+  exact lookup_bind1 names wires _ t x hn hw
+
+theorem lookup_foldl_other (names wires : List Nat) (x : Nat) : ∀ (post : List Nat) (env : List (Nat × Nat)),
+    (∀ t' ∈ post, t' < names.length ∧ t' < wires.length ∧ names[t']? ≠ some x) →
+    lookupName (post.foldl (bind1 names wires) env) x = lookupName env x
+  | [], env, _ => rfl
+  | a :: post, env, h => by
+    obtain ⟨h1, h2, h3⟩ := h a (by simp)
+    rw [List.foldl_cons, lookup_foldl_other names wires x post _ (fun t' ht' => h t' (by simp [ht'])),
+      lookup_bind1 names wires env a x h1 h2, if_neg]
+    intro e; exact h3 (by rw [List.getElem?_eq_getElem h1, e])
+
+/-- the binding that survives for a name is the one made at its LAST occurrence in the order -/
+theorem lookup_last_occurrence (names wires pre post : List Nat) (t : Nat) (hn : t < names.length)
+    (hw : t < wires.length)
+    (hpost : ∀ t' ∈ post, t' < names.length ∧ t' < wires.length ∧ names[t']? ≠ some names[t]) :
+    lookupName (bindTargets names wires (pre ++ t :: post)) names[t] = some wires[t] := by
+  rw [bindTargets_eq, List.foldl_append, List.foldl_cons,
+    lookup_foldl_other names wires names[t] post _ hpost, lookup_bind1 names wires _ t _ hn hw]
+  simp
+
+
 /-! unfolding lemmas are generated here (not in `Props/`) -/
 theorem runOps_nil (st : Cells α × List α) : runOps st [] = pure st := by simp [runOps]
 theorem runL_nil (st : Cells α × List α) : runL st [] = pure st := by simp [runL]
